@@ -120,6 +120,9 @@ def run_unit(unit, rng, ctx):
         ctx.case(None, False)
         return
     kT = KB_EV * temp
+    # the probability view the free energy is defined on
+    pr_ = np.asarray(vol.probability(), dtype=float)
+    ctx.check(pr_.shape == data.shape and np.allclose(pr_, p, rtol=(2e-6 if np.asarray(vol.data).dtype == np.float32 else 1e-12), atol=0) and abs(pr_.sum() - 1) <= (1e-4 if np.asarray(vol.data).dtype == np.float32 else 1e-9), f'{what}: probability() is not density / total density (sum {pr_.sum()!r})', wit)
     want = -kT * np.log(p[visited].astype(float))
     # single-precision densities give single-precision free energies
     single = np.asarray(vol.data).dtype == np.float32 or Fd.dtype == np.float32
